@@ -241,6 +241,8 @@ package models
 //@ axiom [reenc-done] forall(acc string) :: reencAcc(acc, "") == acc
 //@ axiom [reenc-step] forall(acc string, q string) :: q != "" ==> reencAcc(acc, q) == reencAcc(reencStep(acc, strings.cutBefore(q, "&")), strings.cutAfter(q, "&"))
 //@ func encodeRawQuery
+//@   attr safety C10
+//@   checks idx slice div
 //@   property C09
 //@   attr deterministic
 //@   modifies nothing
@@ -255,6 +257,8 @@ package models
 //@ pure reenc(q string) string = reencAcc("", q)
 //@ pred isSignedHost(h string) = h == "external-preview.redd.it" || h == "styles.redditmedia.com" || h == "preview.redd.it"
 //@ func URLToString
+//@   attr safety C10
+//@   checks idx slice div
 //@   property C09
 //@   requires [non-nil] URL != nil
 //@   modifies URL.RawQuery, URL.Host
